@@ -69,7 +69,7 @@ func expectedEffect(op objsrv.Op) string {
 // accessDefects are requests that are authentic but would be denied by the
 // access rules: in maintenance they must still touch nothing.
 var accessDefects = []objsrv.Defect{objsrv.DefBasicACL, objsrv.DefSticky, objsrv.DefEACLRequest, objsrv.DefEACLObjectAttr,
-	objsrv.DefEACLBearerDeny, objsrv.DefEACLHeader}
+	objsrv.DefEACLBearerDeny, objsrv.DefEACLHeader, objsrv.DefEACLHeaderRemote}
 
 func TestC45ClientOps(t *testing.T) {
 	rec := ev.New("C45", "clientops")
